@@ -189,6 +189,13 @@ func init() {
 	reg("IteU8", func(e *Exec, fn *ssa.Function, args []Value, caller *Frame) (Value, *GoPanic) {
 		return e.ctx.Ite(args[0].(*Term), args[1].(*Term), args[2].(*Term)), nil
 	})
+	reg("AllocGuard", func(e *Exec, fn *ssa.Function, args []Value, caller *Frame) (Value, *GoPanic) {
+		old := e.allocLimit
+		e.allocLimit = concInt(e, args[0], "alloc limit")
+		_, p := e.callValue(args[1], nil, nil, caller, nil)
+		e.allocLimit = old
+		return nil, p
+	})
 	reg("F64", func(e *Exec, fn *ssa.Function, args []Value, caller *Frame) (Value, *GoPanic) {
 		if !e.arith {
 			e.unsupported("F64 input outside arithmetic mode")
@@ -263,6 +270,55 @@ func init() {
 			err = r
 		}
 		return e.ctx.False, nil
+	}
+
+	// io.CopyN(dst, src, n): when dst is io.Discard the copy is modelled as n one-byte reads of src
+	// (io.Reader contract; the real code reads through an 8 KiB pooled buffer and a LimitedReader).
+	intrinsics["io.CopyN"] = func(e *Exec, fn *ssa.Function, args []Value, caller *Frame) (Value, *GoPanic) {
+		dst, ok := args[0].(IfaceV)
+		if !ok || dst.typ == nil || !strings.HasSuffix(dst.typ.String(), "io.discard") {
+			e.unsupported("io.CopyN to a writer other than io.Discard")
+		}
+		src := args[1].(IfaceV)
+		n := args[2].(*Term)
+		rd := e.eng.lookupMethod(src.typ, nil, "Read")
+		if rd == nil {
+			e.unsupported("io.CopyN: source without Read")
+		}
+		buf := e.makeSlice(types.Typ[types.Uint8], 1, 1)
+		var i int64
+		for {
+			if !e.branch(e.ctx.Cmp(OpSlt, e.ctx.Const(64, uint64(i)), n), nil) {
+				return TupleV{e.ctx.Const(64, uint64(i)), IfaceV{}}, nil
+			}
+			r, p := e.callFunction(rd, []Value{src.val, buf}, nil, caller, nil)
+			if p != nil {
+				return nil, p
+			}
+			tv := r.(TupleV)
+			got := tv[0].(*Term)
+			err := tv[1].(IfaceV)
+			if !got.IsConst() {
+				e.unsupported("io.CopyN: symbolic read count")
+			}
+			i += int64(got.val)
+			if err.typ != nil {
+				// io.CopyN: EOF before n bytes is reported as io.EOF, other errors are passed through
+				if i >= 1 && e.ctx.Eq(e.ctx.Const(64, uint64(i)), n).IsTrue() {
+					return TupleV{e.ctx.Const(64, uint64(i)), IfaceV{}}, nil
+				}
+				if !e.branch(e.ctx.Cmp(OpSlt, e.ctx.Const(64, uint64(i)), n), nil) {
+					return TupleV{e.ctx.Const(64, uint64(i)), IfaceV{}}, nil
+				}
+				return TupleV{e.ctx.Const(64, uint64(i)), err}, nil
+			}
+			if got.val == 0 {
+				e.unsupported("io.CopyN: reader returned 0, nil")
+			}
+			if i > 1<<20 {
+				panic(pathEnd{"budget", "io.CopyN model: more than 2^20 bytes skipped"})
+			}
+		}
 	}
 
 	// ---- reflect ----
